@@ -1,13 +1,13 @@
-(* Obligation C20/lognormal_variance_from_moments.  Statement as printed by Coq from Inferno.C20.DistProofs; proof by reference.
+(* Obligation C20/lognormal_variance_from_moments.  Statement as printed by Coq from Inferno.C20.DistLogNormal; proof by reference.
    This file contains nothing else, so the statement cannot be weakened quietly. *)
 From Coq Require Import Reals List ZArith Bool.
 From Coquelicot Require Import Coquelicot.
 From Flocq Require Import Core.Raux.
-From Inferno Require Import Base.Num Base.NumR C20.Model C20.Spec C20.DistProofs.
+From Inferno Require Import Base.Num Base.NumR Gen.Distributions C20.Model C20.Spec C20.DistLogNormal.
 Import ListNotations.
 Open Scope R_scope.
 Theorem lognormal_variance_from_moments : forall loc scale : T RN,
   lognormal_variance RN loc scale =
   Rtrigo_def.exp (2 * loc + 2 * (scale * scale)) - lognormal_mean RN loc scale ^ 2.
-Proof. exact (@Inferno.C20.DistProofs.lognormal_variance_from_moments). Qed.
+Proof. exact (@Inferno.C20.DistLogNormal.lognormal_variance_from_moments). Qed.
 Print Assumptions lognormal_variance_from_moments.
